@@ -233,7 +233,12 @@ def execute(prog):
                         cont = rnd.choice(["der", "pem"])
                     elif b == "wrong_oid":
                         oid = rnd.choice([(1, 2, 3, 4), (1, 3, 132, 0, 99),
-                                          tuple(mc.oid[:-1]) + (mc.oid[-1] + 1,)])
+                                          tuple(mc.oid[:-1]) + (mc.oid[-1] + 1,),
+                                          tuple(mc.oid) + (1,),
+                                          tuple(mc.oid) + (0, 3),
+                                          tuple(mc.oid[:-1]),
+                                          tuple(mc.oid[:-2]),
+                                          tuple(mc.oid[:-1]) + (mc.oid[-1] + 128,)])
                         cont = rnd.choice(["der", "pem"])
                     elif b == "infinity_byte":
                         nb = b"\x00"
